@@ -74,8 +74,8 @@ class Emit:
         label = "%s::%s" % (file, rust_name if not trait else trait + "::" + rust_name)
         try:
             fn = s.tr.find(file, rust_name, trait, self_like)
-            if fn["async"]:
-                raise Unsupported("async fn (handled by the lowering of Sem/Async.v)")
+            if fn["async"] != bool(cfg.get("async")):
+                raise Unsupported("async-ness differs from what the model assumes")
             f = Fn(s.tr, fn, cfg)
             generics = tuple(g for g in ("R", "F", "RW") if g in fn["generics"])
             binders = []
@@ -107,7 +107,20 @@ class Emit:
             rty = coq_ty(rt, len(f.outs))
             if cfg.get("ret_repr"):
                 rty = cfg["ret_repr"][1]
-            if cfg.get("pure"):
+            if cfg.get("async"):
+                # one await: prefix (returns inl result | inr awaited-future) and suffix (a function of the future's result)
+                is_loop = len(body) == 1 and body[0]["k"] == "Expr" and body[0]["expr"]["k"] == "Loop"
+                stmts = body[0]["expr"]["body"] if is_loop else body
+                f.ret_mode, f.maybe_vars = "pre", ()
+                kend = K((lambda a, t: Ret("None")) if is_loop else (lambda a, t: f.do_return(a)), cheap=True)
+                pre = simp(f.seq(stmts, 0, kend))
+                if f.post is None:
+                    raise Unsupported("async fn without an await")
+                q, post = f.post
+                bs = " ".join(binders) + (" " if binders else "")
+                s.out.append("Definition %s_pre %s: %s (%s + view) :=\n  %s.\n" % (coq_name, bs, monad, rty, render(pre)))
+                s.out.append("Definition %s_post (%s : io Z) : %s (option %s) :=\n  %s.\n" % (coq_name, q, monad, paren(rty), render(simp(post))))
+            elif cfg.get("pure"):
                 c = f.seq(body, 0, K(lambda a, t: Ret(a), cheap=True))
                 if not is_pure(c):
                     raise Unsupported("expected a pure function")
@@ -238,12 +251,43 @@ def gen_adapters(tr, em):
     o.append("End TAKE.\n")
 
 
+# ------------------------------------------------------------------------------------------ fixed-buffer-tokio/src/lib.rs
+def gen_tokio(tr, em):
+    """AsyncFixedBuf derefs to the FixedBuf of the fixed-buffer crate the tokio crate links (the registry copy, which Model/Fb.v
+    stands for: see DESIGN section 1), so its method calls are calls of the MODEL's functions, not of Gen/FbGen.v."""
+    o = em.out
+    o.append("(* GENERATED by rs2v ast + vlib/translate.py from fixed-buffer-tokio/src/lib.rs.  Do not edit. *)\n"
+             "From FB Require Import Sem.Base Sem.ReadBuf Model.Fb.\nOpen Scope Z_scope.\n\nSection G.\nVariable chk : bool.\nNotation MF := (M fb).\n")
+    st = Struct("AsyncFixedBuf", methods={
+        "is_empty": Sig("is_empty", "bool", hint="e"), "len": Sig("len chk", "usize", hint="len"),
+        "mem": Sig("mem_", ("slice",), hint="m"), "shift": Sig("shift chk", "unit"), "writable": Sig("writable", ("view",), hint="writable"),
+        "wrote": Sig("wrote chk", "unit"), "readable": Sig("readable", ("slice",), hint="readable"),
+        "deframe": Sig("deframe chk", ("res", ("opt", ("range",)), ("err", "io")), hint="r")})
+    cfg = {"struct": st, "monad": "MF", "async": True, "param_types": {"reader": ("reader",), "deframer_fn": ("deframer",)}}
+    F = "fixed-buffer-tokio/src/lib.rs"
+    em.translate_fn(F, "copy_once_from", "aco", cfg, self_like="AsyncFixedBuf")
+    em.translate_fn(F, "read_frame", "arf", dict(cfg, ret_repr=("to_fr", "frame_res")), self_like="AsyncFixedBuf")
+    o.append("End G.\n")
+
+
+def gen_escape(tr, em):
+    o = em.out
+    o.append("(* GENERATED by rs2v ast + vlib/translate.py from fixed-buffer/src/escape_ascii.rs and FixedBuf::escape_ascii.  Do not edit. *)\n"
+             "From FB Require Import Sem.Base Model.Fb Model.Escape.\nFrom FB Require Gen.FbGen.\nOpen Scope Z_scope.\n\nSection G.\nContext {S : Type}.\nNotation MS := (M S).\n")
+    em.translate_fn("fixed-buffer/src/escape_ascii.rs", "escape_ascii", "escape_ascii", {"struct": None, "monad": "MS"})
+    o.append("End G.\n\nNotation MF := (M fb).\n")
+    # FixedBuf::escape_ascii(&self) -> String { escape_ascii(self.readable()) }
+    tr.free_fns["escape_ascii"] = Sig("escape_ascii", ("string",), world="free", hint="esc")
+    st = Struct("FixedBuf", methods={"readable": Sig("FbGen.readable", ("slice",), hint="readable")})
+    em.translate_fn("fixed-buffer/src/lib.rs", "escape_ascii", "fb_escape_ascii", {"struct": st, "monad": "MF"}, self_like="FixedBuf")
+
+
 def main(ast_path, outdir):
     ast = json.load(open(ast_path))
     tr = Translator(ast)
     tr.reserved = RESERVED
     reports = {}
-    for name, gen in (("FbGen", gen_fb), ("DeframersGen", gen_deframers), ("AdaptersGen", gen_adapters)):
+    for name, gen in (("FbGen", gen_fb), ("DeframersGen", gen_deframers), ("AdaptersGen", gen_adapters), ("TokioGen", gen_tokio), ("EscapeGen", gen_escape)):
         em = Emit(tr)
         gen(tr, em)
         txt = "\n".join(em.out)
